@@ -200,6 +200,12 @@ def read_wsgi(om, pair, name, secret):
     return seen.get('v')
 
 
+def cookie_pair_of(ch, name, value, key):
+    """name="<signed value>" made by the real encoder with an arbitrary key (what somebody holding that key would send)"""
+    enc = ch.cookie_encode((name, value), key)
+    return f'{name}="{enc.decode("latin1") if isinstance(enc, bytes) else enc}"'
+
+
 def read_direct(om, pair, name, secret):
     req = om.Request({'HTTP_COOKIE': pair})
     return req.get_cookie(name, default=MISSING, secret=secret)
@@ -433,6 +439,51 @@ def work(spec):
                         core.add_violation(res, {'kind': 'swap', 'header': hdr, 'secret': secret},
                                            f'signature of ({v1!r},{s1!r}) with payload of ({v2!r},{s2!r}) read with {secret!r}: '
                                            f'{g!r}, unpickler reached {unp} time(s)', sig='forged:swap')
+            # secrets of other types and shapes (bytes, with low bytes, empty-looking): a cookie signed with ANOTHER key - the empty
+            # key, NUL keys, a prefix, one byte of the secret - reads as absent
+            def kb(k):
+                return k.encode('utf8') if isinstance(k, str) else bytes(k)
+            for legit in (b'k3y-2024', b'\x01\x02secret', b'0', 's3cr3t', '\u00fc', 'a b'):
+                forged_keys = [b'', b'\0', b'\0' * 8, b'\0' * 64, kb(legit)[:1], kb(legit)[1:], kb(legit) + b'x', kb(legit)[::-1], '', 'k', b'k3y-2025']
+                try:
+                    good = cookie_pair_of(ch, 'n', {'uid': 7}, legit)
+                    back = read_direct(om, good, 'n', legit)
+                except Exception as e:   # noqa
+                    good, back = None, f'<<raised {type(e).__name__}: {e}>>'
+                if back != {'uid': 7}:
+                    core.add_violation(res, {'kind': 'swap', 'header': good, 'secret': repr(legit)}, f'genuine cookie under the secret {legit!r} does not read back', sig='signed:roundtrip-secret-type')
+                for fk in forged_keys:
+                    if kb(fk).rstrip(b'\0') == kb(legit).rstrip(b'\0'):
+                        continue          # (HMAC pads short keys with NUL bytes: the same key)
+                    try:
+                        hdr = cookie_pair_of(ch, 'n', {'uid': 0, 'admin': True}, fk)
+                    except Exception:   # noqa  (nobody can sign with this key: nothing to present)
+                        hdr = None
+                    if hdr is None:
+                        # ... then the forger signs by hand (HMAC-MD5 over the base64 payload, as the wire format says)
+                        import base64
+                        import hashlib
+                        import hmac
+                        import pickle as _p
+                        msg = base64.b64encode(_p.dumps(('n', {'uid': 0, 'admin': True}), -1))
+                        sig = base64.b64encode(hmac.new(kb(fk), msg, digestmod=hashlib.md5).digest())
+                        hdr = 'n="!' + sig.decode() + '?' + msg.decode() + '"'
+                    res['states'] += 1
+                    res['transitions'] += 1
+                    c['tampered'] += 1
+                    c['foreign_key_forgeries'] += 1
+                    b = proxy.loads_calls
+                    proxy.armed = True
+                    try:
+                        g = read_direct(om, hdr, 'n', legit)
+                    except Exception as e:   # noqa
+                        g = f'<<raised {type(e).__name__}: {e}>>'
+                    finally:
+                        proxy.armed = False
+                    unp = proxy.loads_calls - b
+                    if g != MISSING or unp:
+                        core.add_violation(res, {'kind': 'swap', 'header': hdr, 'secret': legit if isinstance(legit, str) else {'bytes': list(legit)}},
+                                           f'cookie signed with the key {fk!r} read with the secret {legit!r}: {g!r}, unpickler reached {unp} time(s)', sig='forged:foreign-key')
             core.add_sample(res, {'swap_cookies': len(cookies)})
     finally:
         core.untrack()
@@ -464,6 +515,8 @@ def replay(case):
             return (f'response.set_cookie({case["name"]!r}, {case["value"]!r}){" followed by redirect()" if case.get("redirect") is True else (" on a prepared HTTPResponse object that is " + ("raised" if case.get("redirect") == "reused-raise" else "returned") + " for two requests (second answer)" if case.get("redirect") in ("reused", "reused-raise") else (" after the same name was set to another value and deleted on the same response" if case.get("redirect") == "twice" else (" on a response with status " + str(case.get("redirect"))[6:] if str(case.get("redirect")).startswith("status") else "")))} emits {pair!r}; sent back as the Cookie header, '
                     f'request.get_cookie reads {got!r}')
         if case['kind'] == 'swap':
+            if isinstance(case['secret'], dict):
+                case = dict(case, secret=bytes(case['secret']['bytes']))
             proxy.armed = True
             try:
                 g = read_direct(om, case['header'], 'n', case['secret'])
